@@ -9,6 +9,7 @@ import (
 	"io"
 	"os"
 	"regexp"
+	"sort"
 	"strings"
 
 	gtio "github.com/evolbioinfo/gotree/io"
@@ -226,8 +227,14 @@ func (d *NcbiTreeDownloader) writeMapfile(namemap map[string]string) error {
 		if err != nil {
 			return err
 		}
-		for k, v := range namemap {
-			fmt.Fprintf(f, "%s\t%s\n", k, v)
+		// Keys in sorted order: the output must not depend on map iteration order
+		keys := make([]string, 0, len(namemap))
+		for k := range namemap {
+			keys = append(keys, k)
+		}
+		sort.Strings(keys)
+		for _, k := range keys {
+			fmt.Fprintf(f, "%s\t%s\n", k, namemap[k])
 		}
 		f.Close()
 	}
